@@ -6,6 +6,7 @@ From SP Require Import Bytes Params Msgpack Crypto Errors Packets Chunker Rand V
 From SP Require Import BaseX Encodings Armor ArmorProofs ArmoredForms.
 From SP Require Import GoLang GoLang2 GoAst GoAstProofs GoAstProofs2 GoAstProofs3.
 From SP Require Import GoAstRecv.
+From SP Require Import GoAstSend GoAstProofs5a.
 From Coq Require String.
 Import String.StringSyntax.
 Import ListNotations.
@@ -149,7 +150,99 @@ Theorem C01_source_tryVisibleReceivers (c : crypto) (vd : validator) (kr : keyri
   g_try_result (fst r) = try_visible c kr (h_version h) (h_a h) (h_rcvs h).
 Proof. exact (fun Hv Hl => proj1 (go_tryVisibleReceivers c vd kr hh h Hv Hl)). Qed.
 
+(* ---- source ties: the encryption SENDER (/repo/encrypt.go), lemmas of proofs/GoAstProofs5a.v ---- *)
+(* The terms f_saltpack_checkEncryptReceivers and f_saltpack_encryptStream_{encryptBlock,Write,Close,init} are
+   generated on every run from the Go syntax trees of /repo/encrypt.go (gen/GoAstSend.v) and evaluated with
+   run_func2 of model/GoLang2.v (outcome AND final environment).  The *encryptStream object is [g_es st] for a
+   record st : es_state (version, encoder, payloadKey, unread bytes of es.buffer, headerHash, macKeys, numBlocks,
+   err); a BoxPublicKey is [g_rcpt (kid, hide)].  `encoder.Encode(x)` is interpreted by an ARBITRARY function
+   enc_step : what presenting the MessagePack bytes of x to the encoder object does to that object, and the error
+   (nil or not) it returns — so the theorems hold for every writer, failing or not.  A Go error value is
+   [g_errv e] with e : gerr = None (nil) or Some (name, arguments).  The specification functions es_block,
+   es_write, es_close, es_init are defined in GoAstProofs5a.v: the model's pieces (model/Encrypt.v, Chunker.v,
+   Rand.v) put in the order the code runs them. *)
+
+(* checkEncryptReceivers(receivers) returns nil / ErrBadReceivers / ErrRepeatedKey(kid) exactly as the model's
+   check_receivers says, kid being the first key id (in list order) equal to an earlier one (first_dup).
+   No hypothesis: every list of receivers. *)
+Theorem C01_source_checkEncryptReceivers (rcpts : list rcpt) :
+  fst (run_func2 ext_rcpt f_saltpack_checkEncryptReceivers [VList (map g_rcpt rcpts)])
+  = match check_receivers rcpts with
+    | Ok _ => ORet [VNil]
+    | Err ErrRepeatedKey =>
+      ORet [VErr "ErrRepeatedKey"
+                 [VBytes (match first_dup (map fst rcpts) with Some k => k | None => [] end)]]
+    | Err _ => ORet [VErr "ErrBadReceivers" []]
+    end.
+Proof. exact (go_checkEncryptReceivers rcpts). Qed.
+
+(* es.encryptBlock(isFinal) = es_block: takes min(1 MiB, len) bytes off the buffer; the evaluator is stuck at the
+   call (BStuck "extern") exactly when checkEncryptBlockRead or assertEncodedChunkState panics; ErrPacketOverflow
+   (buffer already consumed) iff numBlocks = 2^64-1; else the packet mp_encode [final?, authenticators,
+   secretbox(payloadKey, nonce(numBlocks), plaintext)], authenticator_i = HMAC(macKey_i, payload hash), is
+   presented to the encoder, whose error is returned, and on nil numBlocks is incremented.  The returned error
+   value AND the receiver object left in `es`.  No hypothesis: any crypto record c, any writer enc_step, any
+   state st (any version, key lists, numBlocks), either value of isFinal. *)
+Theorem C01_source_encryptBlock (c : crypto) (enc_step : gval -> bytes -> gval * gerr) (st : es_state) (final : bool) :
+  let r := run_func2 (ext_block c enc_step) f_saltpack_encryptStream_encryptBlock [g_es st; VBool final] in
+  match es_block c enc_step st final with
+  | BStuck w => fst r = OStuck w
+  | BRet e st' => fst r = ORet [g_errv e] /\ lookup "es" (snd r) = Some (g_es st')
+  end.
+Proof. exact (go_encryptBlock c enc_step st final). Qed.
+
+(* es.Write(p) = es_write: a stored error is returned again with 0; else p is appended to the buffer and, while
+   more than 1 MiB is buffered, encryptBlock(false) runs (with the meaning C01_source_encryptBlock proves); an
+   error is stored in es.err and returned with 0; else (len p, nil).  Both results AND the receiver object.
+   No hypothesis; the evaluator's loop bound is part of es_write (es_drain 296): WStuck "loop fuel" when a single
+   Write would flush more than 295 blocks, WStuck "call" when encryptBlock has no value. *)
+Theorem C01_source_encryptStream_Write (c : crypto) (enc_step : gval -> bytes -> gval * gerr) (st : es_state) (p : bytes) :
+  let r := run_func2 (ext_stream c enc_step) f_saltpack_encryptStream_Write [g_es st; VBytes p] in
+  match es_write c enc_step st p with
+  | WStuck w => fst r = OStuck w
+  | WRet n e st' => fst r = ORet [VInt n; g_errv e] /\ lookup "es" (snd r) = Some (g_es st')
+  end.
+Proof. exact (go_encryptStream_Write c enc_step st p). Qed.
+
+(* es.Close() = es_close, for EVERY version.  Version1(): if bytes are buffered, encryptBlock(false) (its error is
+   returned); panic if bytes are still buffered; then encryptBlock(true), whose error is returned.  Version2():
+   encryptBlock(true), its error, or (panic if bytes are left | nil).  Any other version panics.  CloseStuck "call"
+   where encryptBlock has no value.  The returned error AND the receiver object.  No hypothesis. *)
+Theorem C01_source_encryptStream_Close (c : crypto) (enc_step : gval -> bytes -> gval * gerr) (st : es_state) :
+  let r := run_func2 (ext_stream c enc_step) f_saltpack_encryptStream_Close [g_es st] in
+  match es_close c enc_step st with
+  | CloseStuck w => fst r = OStuck w
+  | ClosePanic => fst r = OPanic
+  | CloseRet e st' => fst r = ORet [g_errv e] /\ lookup "es" (snd r) = Some (g_es st')
+  end.
+Proof. exact (go_encryptStream_Close c enc_step st). Qed.
+
+(* es.init(version, sender, receivers, ephemeralKeyCreator, rng) = es_init: ErrBadVersion, the receivers check,
+   shuffle (stuck "call" for >= 2^31 receivers: csprngShuffle panics), ephemeral key, payload key (ErrRand when a
+   source is short), sender secretbox, per-recipient payload key boxes in shuffled order, header bytes, header
+   hash, Encode(header bytes) (its error), MAC keys.  The evaluator has no global state: ra is the source
+   rng.shuffleReceivers draws from, rb the key creator's, rc rng.createSymmetricKey's; the theorem states the
+   returned error, the receiver object (payloadKey, headerHash, encoder, macKeys; the other fields untouched) and
+   the sources LEFT in the rng and key-creator objects, i.e. the randomness consumed.  No hypothesis. *)
+Theorem C01_source_encryptStream_init (c : crypto) (enc_step : gval -> bytes -> gval * gerr) (st : es_state)
+        (v : version) (sender : option bytes) (rcpts : list rcpt) (ra rb rc : rng) :
+  let r := run_func2 (ext_init c enc_step) f_saltpack_encryptStream_init
+                     [g_es st; g_version v; g_sender sender; VList (map g_rcpt rcpts); VBytes rb; g_rng ra rc] in
+  match es_init c enc_step st v sender rcpts ra rb rc with
+  | IStuck w => fst r = OStuck w
+  | IRet e st' ra' rb' rc' =>
+    fst r = ORet [g_errv e] /\ lookup "es" (snd r) = Some (g_es st') /\
+    lookup "rng" (snd r) = Some (g_rng ra' rc') /\ lookup "ephemeralKeyCreator" (snd r) = Some (VBytes rb')
+  end.
+Proof. exact (go_encryptStream_init c enc_step st v sender rcpts ra rb rc). Qed.
+
+
 Print Assumptions C01_source_processHeader.
+Print Assumptions C01_source_checkEncryptReceivers.
+Print Assumptions C01_source_encryptBlock.
+Print Assumptions C01_source_encryptStream_Write.
+Print Assumptions C01_source_encryptStream_Close.
+Print Assumptions C01_source_encryptStream_init.
 Print Assumptions C01_source_tryHiddenReceivers.
 Print Assumptions C01_source_tryVisibleReceivers.
 Print Assumptions C01_armored_form_agrees.
